@@ -83,12 +83,20 @@ static int validate_checksums(zckCtx *zck, zck_log_type bad_checksums) {
             return 0;
 
         size_t rlen = 0;
+        bool missing = false;
         while(rlen < idx->comp_length) {
             size_t rsize = BUF_SIZE;
             if(BUF_SIZE > idx->comp_length - rlen)
                 rsize = idx->comp_length - rlen;
-            if(read_data(zck, buf, rsize) != rsize)
+            ssize_t rb = read_data(zck, buf, rsize);
+            if(rb < 0)
+                return 0;
+            if((size_t)rb != rsize) {
+                /* The file ends inside this chunk, so it can't be valid */
                 zck_log(ZCK_LOG_DEBUG, "No more data");
+                missing = true;
+                break;
+            }
             if(!hash_update(zck, &(zck->check_chunk_hash), buf, rsize))
                 return 0;
             if(!zck->has_uncompressed_source) {
@@ -97,9 +105,12 @@ static int validate_checksums(zckCtx *zck, zck_log_type bad_checksums) {
             }
             rlen += rsize;
         }
-        int valid_chunk = validate_chunk(idx, bad_checksums);
-        if(!valid_chunk)
-            return 0;
+        int valid_chunk = -1;
+        if(!missing) {
+            valid_chunk = validate_chunk(idx, bad_checksums);
+            if(!valid_chunk)
+                return 0;
+        }
         idx->valid = valid_chunk;
         if(all_good && valid_chunk != 1)
             all_good = false;
@@ -409,21 +420,31 @@ int ZCK_PUBLIC_API zck_validate_data_checksum(zckCtx *zck) {
     char buf[BUF_SIZE] = {0};
     zckChunk *idx = zck->index.first;
     zck_log(ZCK_LOG_DEBUG, "Checking full hash");
-    while(idx) {
+    bool missing = false;
+    while(idx && !missing) {
         size_t to_read = idx->comp_length;
         while(to_read > 0) {
             size_t rb = BUF_SIZE;
             if(rb > to_read)
                 rb = to_read;
-            if(!read_data(zck, buf, rb))
+            ssize_t rd = read_data(zck, buf, rb);
+            if(rd < 0)
                 return 0;
+            if((size_t)rd != rb) {
+                /* The file ends before the data does */
+                zck_log(ZCK_LOG_WARNING, "Data checksum failed: file is truncated");
+                missing = true;
+                break;
+            }
             if(!hash_update(zck, &(zck->check_full_hash), buf, rb))
                 return 0;
             to_read -= rb;
         }
         idx = idx->next;
     }
-    int ret = validate_file(zck, ZCK_LOG_WARNING);
+    int ret = -1;
+    if(!missing)
+        ret = validate_file(zck, ZCK_LOG_WARNING);
     if(!seek_data(zck, zck->data_offset, SEEK_SET))
         return 0;
     if(!hash_init(zck, &(zck->check_full_hash), &(zck->hash_type)))
